@@ -637,9 +637,11 @@ func runC11AbortWhileAnswering(kind string, r *rep.Report) (key, msg string, hel
 func TestC11(t *testing.T) {
 	r := rep.New(t, "C11")
 	defer r.Flush()
+	// journalled cases that have not ended after a minute of real time are examined (rep.Guard)
+	r.Guard(60 * time.Second)
 	if r.Lane == 3%r.Lanes {
 		// the engine behind a types.HttpServer listening itself: HTTP/1.1, HTTP/2 (TLS) and HTTP/3 (QUIC) on loopback
-		defer netLanes(r, r.N(4, 64))
+		netLanes(r, r.N(4, 64))
 	}
 	r.Rule("PRNG polling/JSONP histories over real net/http: overlapping polls, overlapping data requests (first one with a slow body), a pending poll while the session closes by each cause (including the client's own close packet in a data request), polls and data requests aborted by the client mid-flight, multi-packet data requests with a listener that takes time (acknowledgement ordering by tap sequence numbers), a revision-4 data request with a binary content type, mixed conformant histories with server sends and heartbeats, and a data request whose listener is running when the session is closed from another goroutine while the first header write is held (harness-side gate in the ResponseWriter); oracle: counting ResponseWriter (exactly one WriteHeader per non-aborted exchange), handler return log, 400 + 'transport error' on overlap, bubble goroutine-leftover scan 40 s after everything closed; distinct = scenario signature")
 	if r.Lane == 0 {
